@@ -41,11 +41,11 @@ def sym(ctx, pat, canonical=None):
 
 
 # ranges: what the language guarantees for Flat types, bounded sizes
-def type_ranges(ctx):
+def type_ranges(ctx, aligns=P2):
     out = []
     for path, name in ctx.symbols.items():
         if path.endswith("::ALIGN"):
-            out.append(one_of(name, P2))
+            out.append(one_of(name, aligns))
         elif path.endswith("::SIZE") and re.search(r"<L as ", path):
             out.append(one_of(name, [1, 2, 4, 8]))
         elif path.endswith("::SIZE") or path.endswith("::MIN_SIZE"):
@@ -56,9 +56,10 @@ def type_ranges(ctx):
 
 
 class Obl:
-    def __init__(self, name, crate, func, args, assume, claims, what, is_const=False, then=None, extra_vars=()):
+    def __init__(self, name, crate, func, args, assume, claims, what, is_const=False, then=None, extra_vars=(), consts=None):
         self.name, self.crate, self.func, self.args, self.assume, self.claims = name, crate, func, args, assume, claims
         self.what, self.is_const, self.then, self.extra_vars = what, is_const, then, extra_vars
+        self.consts = consts or {}
 
 
 BIG = 2 ** 48
@@ -134,6 +135,60 @@ OBLIGATIONS = [
 ]
 
 
+
+# ---- macro-generated constants of generic #[flat] definitions (crate /verif/mgen)
+# A and B are sized field types: MIN_SIZE == SIZE (blanket impl of FlatBase for FlatSized)
+G_RANGES = ["(<= {L.ALIGN} {L.SIZE})", "(= {A.MIN_SIZE} {A.SIZE})", "(= {B.MIN_SIZE} {B.SIZE})"]
+OBLIGATIONS += [
+    Obl("GS3_LAST_FIELD_OFFSET", "mgen", "span:GS3::LAST_FIELD_OFFSET", [], G_RANGES,
+        [("C offset of the last field of struct {a: A, b: B, c: FlatVec<C, L>}", "(= R (rup (+ (rup {A.SIZE} {B.ALIGN}) {B.SIZE}) (mx {C.ALIGN} {L.ALIGN})))")],
+        "#[flat(sized=false)] struct: LAST_FIELD_OFFSET equals the C-layout offset of the unsized tail for every size/alignment of A, B, C, L", is_const=True),
+    Obl("GS3_ALIGN", "mgen", "span:GS3::ALIGN", [], G_RANGES,
+        [("maximum alignment of all fields (read off the generated AlignAs struct)", "(= R (mx (mx {A.ALIGN} {B.ALIGN}) (mx {C.ALIGN} {L.ALIGN})))")],
+        "ALIGN of the generated struct is the maximum field alignment", is_const=True),
+    Obl("GS3_MIN_SIZE", "mgen", "span:GS3::MIN_SIZE", [], G_RANGES,
+        [("offset of the tail + its minimum size, rounded up to ALIGN", "(= R (rup (+ (rup (+ (rup {A.SIZE} {B.ALIGN}) {B.SIZE}) (mx {C.ALIGN} {L.ALIGN})) (mx {L.SIZE} {C.ALIGN})) (mx (mx {A.ALIGN} {B.ALIGN}) (mx {C.ALIGN} {L.ALIGN}))))"),
+         ("multiple of ALIGN", "(= (mod R (mx (mx {A.ALIGN} {B.ALIGN}) (mx {C.ALIGN} {L.ALIGN}))) 0)")],
+        "MIN_SIZE of the generated struct", is_const=True),
+    Obl("GS3_ptr_from_bytes", "mgen", "span:GS3::ptr_from_bytes", [("fat", "n")],
+        G_RANGES + ["(>= n 0)", "(<= n 281474976710656)", "(>= n MINLIB)", "(>= addr 0)", "(<= addr 281474976710656)"],
+        [("the mapped struct (size_of_val = round_up(LAST_FIELD_OFFSET + DATA_OFFSET + cap*SIZE, ALIGN)) does not exceed the slice",
+          "(=> (and (>= Y (+ LFOLIB FVDOLIB (* R.meta {C.SIZE}))) (< Y (+ LFOLIB FVDOLIB (* R.meta {C.SIZE}) ALLIB)) (= (mod Y ALLIB) 0) (>= {C.SIZE} 1)) (<= Y n))"),
+         ("the pointer still addresses the start of the slice", "(= R.addr addr)")],
+        "generated ptr_from_bytes of an unsized struct: no underflow for n >= MIN_SIZE, size_of_val <= n, address unchanged",
+        extra_vars=("Y",), consts={"MINLIB": "<GS3<A, B, C, L> as FlatBase>::MIN_SIZE", "LFOLIB": "GS3::<A, B, C, L>::LAST_FIELD_OFFSET",
+                                   "FVDOLIB": "<FlatVec<C, L> as DataOffset<C, L>>::DATA_OFFSET", "ALLIB": "<GS3<A, B, C, L> as FlatBase>::ALIGN"}),
+    Obl("GS2_LAST_FIELD_OFFSET", "mgen", "span:GS2::LAST_FIELD_OFFSET", [], G_RANGES,
+        [("C offset of the last field of struct {a: A, c: FlatVec<C, L>}", "(= R (rup {A.SIZE} (mx {C.ALIGN} {L.ALIGN})))")],
+        "two-field unsized struct: LAST_FIELD_OFFSET", is_const=True),
+    Obl("GS2_ptr_from_bytes", "mgen", "span:GS2::ptr_from_bytes", [("fat", "n")],
+        G_RANGES + ["(>= n 0)", "(<= n 281474976710656)", "(>= n MINLIB)", "(>= addr 0)", "(<= addr 281474976710656)"],
+        [("size_of_val <= n",
+          "(=> (and (>= Y (+ LFOLIB FVDOLIB (* R.meta {C.SIZE}))) (< Y (+ LFOLIB FVDOLIB (* R.meta {C.SIZE}) ALLIB)) (= (mod Y ALLIB) 0) (>= {C.SIZE} 1)) (<= Y n))")],
+        "generated ptr_from_bytes of a two-field unsized struct",
+        extra_vars=("Y",), consts={"MINLIB": "<GS2<A, C, L> as FlatBase>::MIN_SIZE", "LFOLIB": "GS2::<A, C, L>::LAST_FIELD_OFFSET",
+                                   "FVDOLIB": "<FlatVec<C, L> as DataOffset<C, L>>::DATA_OFFSET", "ALLIB": "<GS2<A, C, L> as FlatBase>::ALIGN"}),
+    Obl("GE_ALIGN", "mgen", "span:GE::ALIGN", [], G_RANGES,
+        [("maximum alignment of the tag and of every variant field", "(= R (mx 1 (mx (mx {A.ALIGN} {B.ALIGN}) (mx {C.ALIGN} {L.ALIGN}))))")],
+        "ALIGN of the generated unsized enum {V0, V1(A), V2{a: A, b: B}, V3(B, FlatVec<C, L>)}", is_const=True),
+    Obl("GE_DATA_OFFSET", "mgen", "span:GE::DATA_OFFSET", [], G_RANGES,
+        [("offset of the payload after a u8 tag", "(= R (rup 1 (mx 1 (mx (mx {A.ALIGN} {B.ALIGN}) (mx {C.ALIGN} {L.ALIGN})))))")],
+        "DATA_OFFSET of the generated enum = round_up(tag size, ALIGN)", is_const=True),
+    Obl("GE_DATA_MIN_SIZES", "mgen", "span:GE::DATA_MIN_SIZES", [], G_RANGES,
+        [("per-variant minimum payload sizes follow the C rule",
+          "(and (= R.0 0) (= R.1 {A.SIZE}) (= R.2 (+ (rup {A.SIZE} {B.ALIGN}) {B.SIZE})) (= R.3 (+ (rup {B.SIZE} (mx {C.ALIGN} {L.ALIGN})) (mx {L.SIZE} {C.ALIGN}))))")],
+        "DATA_MIN_SIZES of the generated enum", is_const=True),
+    Obl("GE_MIN_SIZE", "mgen", "span:GE::MIN_SIZE", [], G_RANGES,
+        [("payload offset plus the smallest variant, rounded up", "(= R (rup 1 (mx 1 (mx (mx {A.ALIGN} {B.ALIGN}) (mx {C.ALIGN} {L.ALIGN})))))")],
+        "MIN_SIZE of the generated enum", is_const=True),
+    Obl("GE_ptr_from_bytes", "mgen", "span:GE::ptr_from_bytes", [("fat", "n")],
+        G_RANGES + ["(>= n 0)", "(<= n 281474976710656)", "(>= n MINLIB)"],
+        [("the payload view is the largest ALIGN-multiple that fits", "(and (<= (+ DOLIB R.meta) n) (= (mod R.meta ALLIB) 0) (> (+ DOLIB R.meta ALLIB) n))")],
+        "generated ptr_from_bytes of an unsized enum: no underflow for n >= MIN_SIZE; covers DATA_OFFSET + floor(n - DATA_OFFSET, ALIGN) bytes",
+        consts={"MINLIB": "<GE<A, B, C, L> as FlatBase>::MIN_SIZE", "DOLIB": "GE::<A, B, C, L>::DATA_OFFSET", "ALLIB": "<GE<A, B, C, L> as FlatBase>::ALIGN"}),
+]
+
+
 def build_args(ctx, spec, decls):
     vals = []
     for a in spec:
@@ -160,9 +215,11 @@ def build_args(ctx, spec, decls):
 
 def term_of(v, proj=None):
     if isinstance(v, M.I):
+        if proj is not None:
+            raise M.Unsupported("projection .%s of a scalar result" % proj)
         return v.t
     if isinstance(v, M.Fat):
-        return v.meta if proj == "meta" else v.addr
+        return v.meta if proj == "meta" else "(+ 0 %s)" % v.addr
     if isinstance(v, M.Tup):
         return term_of(v.items[int(proj)])
     raise M.Unsupported("result projection")
@@ -171,18 +228,17 @@ def term_of(v, proj=None):
 def subst(claim, ctx, rets, path):
     def rep_sym(m):
         k = m.group(1)
-        pats = {"T.SIZE": r"<T as .*FlatSized>::SIZE$", "T.ALIGN": r"<T as .*FlatBase>::ALIGN$", "T.MIN_SIZE": r"<T as .*FlatBase>::MIN_SIZE$",
-                "L.SIZE": r"<L as .*FlatSized>::SIZE$", "L.ALIGN": r"<L as .*FlatBase>::ALIGN$",
-                "NEXT.ALIGN": r"<<I as .*TypeIter>::Item as .*FlatBase>::ALIGN$"}
-        canon = {"T.SIZE": "<T as traits::FlatSized>::SIZE", "T.ALIGN": "<T as traits::FlatBase>::ALIGN", "T.MIN_SIZE": "<T as traits::FlatBase>::MIN_SIZE",
-                 "L.SIZE": "<L as traits::FlatSized>::SIZE", "L.ALIGN": "<L as traits::FlatBase>::ALIGN",
-                 "NEXT.ALIGN": "<<I as utils::iter::TypeIter>::Item as traits::FlatBase>::ALIGN"}
-        return sym(ctx, pats[k], canon[k])
+        ty, what = k.split(".")
+        if ty == "NEXT":
+            return sym(ctx, r"<<I as TypeIter>::Item as FlatBase>::ALIGN$", "<<I as TypeIter>::Item as FlatBase>::ALIGN")
+        trait = "FlatSized" if what == "SIZE" else "FlatBase"
+        path = "<%s as %s>::%s" % (ty, trait, what)
+        return sym(ctx, "^" + re.escape(path) + "$", path)
     s = re.sub(r"\{([A-Z]+\.[A-Z_]+)\}", rep_sym, claim)
     for i in (3, 2, 1):
         tag = "R%d" % i if i > 1 else "R"
         if i - 1 < len(rets):
-            s = re.sub(r"\b%s\.(meta|\d+)\b" % tag, lambda m: term_of(rets[i - 1], m.group(1)), s)
+            s = re.sub(r"\b%s\.(meta|addr|\d+)\b" % tag, lambda m: term_of(rets[i - 1], m.group(1)), s)
             if isinstance(rets[i - 1], M.I):
                 s = re.sub(r"\b%s\b(?![.!])" % tag, rets[i - 1].t, s)
     for k, (callee, args) in enumerate(path.calls):
@@ -236,20 +292,28 @@ def _case_split(smt):
     return "\n".join(script) + "\n", len(combos)
 
 
-def solve_cvc5_split(smt, timeout=120):
+def solve_split(smt, solver="cvc5", timeout=120):
+    """one incremental check per assignment of the enumerated moduli"""
     t0 = time.time()
     script, n = _case_split(smt)
     if script is None:
-        return "too-many-cases", "", time.time() - t0
-    out = _solve1(script, "cvc5", timeout)
+        return "too-many-cases", "", time.time() - t0, 0
+    if solver != "cvc5":
+        script = script.replace("(set-option :incremental true)\n", "")
+    out = _solve1(script, solver, timeout)
     answers = [l for l in out.strip().split("\n") if l in ("sat", "unsat", "unknown")]
     if "(error" in out:
-        return "error", out, time.time() - t0
+        return "error", out, time.time() - t0, n
     if "sat" in answers:
-        return "sat", out, time.time() - t0
+        return "sat", out, time.time() - t0, n
     if len(answers) == n and all(a == "unsat" for a in answers):
-        return "unsat", out, time.time() - t0
-    return "unknown(%d/%d cases answered)" % (len(answers), n), out, time.time() - t0
+        return "unsat", out, time.time() - t0, n
+    return "unknown(%d/%d cases answered)" % (len(answers), n), out, time.time() - t0, n
+
+
+def count_cases(smt):
+    script, n = _case_split(smt)
+    return n if script is not None else 10 ** 9
 
 
 def solve(smt, solver, timeout=60):
@@ -272,7 +336,14 @@ def run_obligation(o, funcs_by_crate):
         ctx = M.Ctx(funcs_by_crate[o.crate])
         decls = []
         args = build_args(ctx, o.args, decls)
-        f = M.find_func(ctx, o.func, want_const=True if o.is_const else None)
+        fpat = o.func
+        if fpat.startswith("span:"):
+            tyname, item = fpat[5:].split("::")
+            span = M.impl_span_of(ctx, tyname)
+            if not span:
+                raise M.Unsupported("no impl for " + tyname)
+            fpat = "^" + re.escape(span) + "::" + item + "$"
+        f = M.find_func(ctx, fpat, want_const=True if o.is_const else None)
         p0 = M.Path()
         paths = M.execute(ctx, f, args, p0)
         # composition
@@ -298,6 +369,8 @@ def run_obligation(o, funcs_by_crate):
                 consts["AL"] = M.const_value(ctx, "<vec::FlatVec<T, L> as flatty_base::traits::FlatBase>::ALIGN", pconst).t
             if "flex" in o.func:
                 consts["XAL"] = M.const_value(ctx, "<flex::FlexVec<T, L> as flatty_base::traits::FlatBase>::ALIGN", pconst).t
+        for k, expr in o.consts.items():
+            consts[k] = M.const_value(ctx, expr, pconst).t
         for (p, rets) in stages:
             # resolve every placeholder first: this may declare symbols the function never mentions
             for a in o.assume:
@@ -316,9 +389,12 @@ def run_obligation(o, funcs_by_crate):
                     if n not in names:
                         names.add(n)
                         lines.append("(declare-const %s %s)" % (n, sort))
+                lines.append("(define-fun rup ((x Int) (a Int)) Int (+ x (mod (- a (mod x a)) a)))")
+                lines.append("(define-fun mx ((a Int) (b Int)) Int (ite (>= a b) a b))")
                 for k, v in consts.items():
                     lines.append("(define-fun %s () Int %s)" % (k, v))
-                for a in type_ranges(ctx):
+                # generic definitions have four alignment parameters: {1,2,4,8} keeps the case split at 1024
+                for a in type_ranges(ctx, [1, 2, 4, 8] if o.crate == "mgen" else P2):
                     lines.append("(assert %s)" % a)
                 for a in pconst.assume:
                     lines.append("(assert %s)" % a)
@@ -336,19 +412,33 @@ def run_obligation(o, funcs_by_crate):
                 smt = "\n".join(q) + "\n"
                 if os.environ.get("SMT_DUMP"):
                     open(os.path.join(os.environ["SMT_DUMP"], "%s-%d.smt2" % (o.name, res["queries"])), "w").write(smt)
-                v1, out1, t1 = solve(smt, "z3")
-                # second opinion: cvc5 (case-split over the enumerated moduli when the query is
-                # non-linear), and z3 5.1.0 if cvc5 still gives no answer
-                if "(mod " in smt or "(* " in smt:
-                    v2, out2, t2 = solve_cvc5_split(smt, timeout=60)
+                nonlinear = "(mod " in smt or "(* " in smt
+                ncases = count_cases(smt) if nonlinear else 1
+                if nonlinear and res.get("_plain_z3_fails"):
+                    v1, out1, t1 = "skipped", "", 0.0
                 else:
+                    v1, out1, t1 = solve(smt, "z3", timeout=15 if nonlinear else 60)
+                if v1 not in ("sat", "unsat") and nonlinear:
+                    res["_plain_z3_fails"] = True
+                    v1, out1, t1b, _ = solve_split(smt, "z3", timeout=300)
+                    t1 += t1b
+                # second opinion: cvc5 (case-split over the enumerated moduli when the query is
+                # non-linear; it does not finish otherwise). With more than 300 cases cvc5 needs
+                # minutes per query: z3 5.1.0 on the same case split is used instead.
+                if not nonlinear:
                     v2, out2, t2 = solve(smt, "cvc5", timeout=30)
-                second = "cvc5"
+                    second = "cvc5"
+                elif ncases <= 300:
+                    v2, out2, t2, _ = solve_split(smt, "cvc5", timeout=120)
+                    second = "cvc5 (%d cases)" % ncases
+                else:
+                    v2, out2, t2, _ = solve_split(smt, "z3-new", timeout=300)
+                    second = "z3-5.1.0 (%d cases; too many for cvc5)" % ncases
                 if v2 not in ("sat", "unsat"):
                     v3, out3, t3 = solve(smt, "z3-new", timeout=60)
                     t2 += t3
                     if v3 in ("sat", "unsat"):
-                        v2, out2, second = v3, out3, "z3-5.1.0 (cvc5: no answer)"
+                        v2, out2, second = v3, out3, "z3-5.1.0 (first choice gave no answer)"
                 res.setdefault("second_solver", {})[desc] = second
                 res["queries"] += 1
                 res["solver_s"] += t1 + t2
@@ -364,6 +454,7 @@ def run_obligation(o, funcs_by_crate):
     except (M.Unsupported, RuntimeError, KeyError, IndexError) as e:
         res["verdict"] = "inconclusive(encoder: %s)" % str(e)[:200]
     res["solver_s"] = round(res["solver_s"], 2)
+    res.pop("_plain_z3_fails", None)
     return res
 
 
@@ -372,12 +463,23 @@ def run(pid, tier, mjobs, run_dir):
     base = M.parse_mir(dump_mir(os.path.join(REPO, "base"), run_dir, "base"))
     cont = M.parse_mir(dump_mir(os.path.join(REPO, "containers"), run_dir, "cont", ["--no-default-features"]))
     funcs = {"base": base, "cont": cont + base}
+    if any(o.crate == "mgen" and o.name in wanted for o in OBLIGATIONS):
+        mg = os.path.join(run_dir, "mgen")
+        shutil.rmtree(mg, ignore_errors=True)
+        shutil.copytree(os.path.join(os.path.dirname(os.path.dirname(os.path.abspath(__file__))), "mgen"), mg, ignore=shutil.ignore_patterns("target"))
+        ct = open(os.path.join(mg, "Cargo.toml")).read().replace('"/repo"', '"%s"' % REPO)
+        open(os.path.join(mg, "Cargo.toml"), "w").write(ct)
+        funcs["mgen"] = M.parse_mir(dump_mir(mg, run_dir, "mgen")) + cont + base
     out = []
-    for o in OBLIGATIONS:
-        if o.name in wanted:
-            r = run_obligation(o, funcs)
-            M_log("  [smt %s] %s  queries=%d  %.1fs" % (r["verdict"], o.name, r["queries"], r["solver_s"]))
-            out.append(r)
+    from concurrent.futures import ThreadPoolExecutor
+    todo = [o for o in OBLIGATIONS if o.name in wanted]
+
+    def one(o):
+        r = run_obligation(o, funcs)
+        M_log("  [smt %s] %s  queries=%d  %.1fs" % (r["verdict"], o.name, r["queries"], r["solver_s"]))
+        return r
+    with ThreadPoolExecutor(max_workers=int(os.environ.get("VERIF_JOBS", "12"))) as ex:
+        out = list(ex.map(one, todo))
     missing = wanted - set(r["name"] for r in out)
     for m in missing:
         out.append({"name": m, "verdict": "inconclusive(no such obligation)", "queries": 0, "solver_s": 0})
